@@ -10,7 +10,7 @@ import time
 import z3
 
 from .path import Path, STATS
-from .values import Unsupported, Infeasible, RaiseSignal
+from .values import Unsupported, Infeasible, RaiseSignal, FrameViolation
 
 PROVED, REFUTED, UNDECIDED, ERROR = 'proved', 'refuted', 'undecided', 'error'
 
@@ -88,14 +88,6 @@ class Ctx:
         path._solver = None
         path._sync()
         assertions = list(path._solver.assertions())
-        # lemma instances for predicates that occur only in the goal
-        from . import ops as _ops
-        done = set()
-        for _ in range(4):
-            new = _ops.theory_lemmas(assertions + [neg], done)
-            if not new:
-                break
-            assertions.extend(new)
         dump = os.environ.get('PYVC_DUMP')
         if dump and dump in o.id:
             print('=== DUMP', o.id)
@@ -321,6 +313,8 @@ def refines(ctx, oid, function, impl, spec, make_args, witness=None, max_paths=4
             return ('raise', rs.exc)
         except TerminationViolation as tv:
             return ('diverge', tv)
+        except FrameViolation as fv:
+            return ('frame', fv)
 
     results = explore(Path(timeout_ms=4000), run_impl, max_paths)
     for i, (p, (kind, val)) in enumerate(results):
@@ -328,6 +322,10 @@ def refines(ctx, oid, function, impl, spec, make_args, witness=None, max_paths=4
         if kind == 'diverge':
             ctx.prove(f'{oid}:path{i}:decreases', 'decreases', function, p, False,
                       f'termination: {val}', witness=w)
+            continue
+        if kind == 'frame':
+            ctx.prove(f'{oid}:path{i}:frame', 'frame', function, p, False,
+                      f'modifies nothing but its own allocations: {val}', witness=w)
             continue
 
         def run_spec(q, p=p):
@@ -356,6 +354,7 @@ def refines(ctx, oid, function, impl, spec, make_args, witness=None, max_paths=4
                     ctx.settle(o, PROVED, 'syntactic')
                 continue
             try:
+                interp.unify_atoms(q)
                 leaves = equal(interp, q, val, sval)
             except Mismatch as mm:
                 ctx.prove(f'{tag}:ensures', 'ensures', function, q, False,
@@ -372,7 +371,12 @@ def refines(ctx, oid, function, impl, spec, make_args, witness=None, max_paths=4
 
 def _exc_name(e):
     try:
-        return e.cls.name
+        a = e.fields.get('args', ())
+        msg = ''
+        if a:
+            from .ops import canon
+            msg = ': ' + (a[0] if isinstance(a[0], str) else canon(a[0]))[:120]
+        return e.cls.name + msg
     except Exception:
         return str(e)
 
